@@ -21,7 +21,8 @@ RULE = ('request paths assembled from traversal-significant pieces (.., ., %2e%2
         'a view named "static" found by traversal -- also as /@@static/.. and below an X-VHM-ROOT virtual root (the header also on the route mountings) --, a route with a default '
         '{subpath} placeholder = one piece without "/") x filesystem and package-relative roots x optional SCRIPT_NAME x '
         'Accept-Encoding values x content_encodings (package roots given as pkg:dir, as a relative dir with package_name=, and as a '
-        'relative dir resolved against the package of the module that creates the view / the Configurator), plus all 6^4 combinations of six core pieces; non-trivial = the '
+        'relative dir resolved against the package of the module that creates the view / the Configurator, also when that code is '
+        'include()d by an application of another package), plus all 6^4 combinations of six core pieces; non-trivial = the '
         'static view itself was reached and either answered 200/301 or the path contains a traversal-significant '
         'piece; distinct by full case.  In addition exhaustive UTF-8 blocks (Lib/Utf8.decode vs traversal.decode_path_info)')
 ASSUMPTIONS = [
@@ -143,6 +144,15 @@ ROOTS = {
     'pkg-caller-scripts': (True, 'scripts', None),        # a name that also exists inside the pyramid package
 }
 CALLER = {'pkg-caller': PKG, 'pkgb-caller': PKGB, 'pkg-caller-sub': PKG, 'pkg-caller-scripts': PKG}
+# a relative path registered by INCLUDED code: the top-level Configurator belongs to one package (INCLUDER), the includeme
+# function that calls add_static_view / creates the view to another (CALLER): the path is relative to the package of the
+# code that registers it (config.package inside include()), not to the application's root package.  Both packages have a
+# 'static' directory with different content.  These roots are NOT part of the random stream (appended stream + targeted)
+ROOTS['pkgb-included'] = (True, 'static', None)
+ROOTS['pkga-included'] = (True, 'static', None)
+CALLER['pkgb-included'] = PKGB
+CALLER['pkga-included'] = PKG
+INCLUDER = {'pkgb-included': PKG, 'pkga-included': PKGB}
 FACTORY = '''from pyramid.config import Configurator
 from pyramid.static import static_view
 
@@ -153,6 +163,12 @@ def make_view(root_dir, **kw):
 
 def make_config(**kw):
     return Configurator(**kw)
+
+
+def make_includeme(name, path, **kw):
+    def includeme(config):
+        config.add_static_view(name=name, path=path, **kw)
+    return includeme
 '''
 SCRIPTS_FILES = {'pserve.py': 9, 'common.py': 6, 'index.html': 5, 'notes.txt': 4}
 MOUNTS = ['route', 'catchall', 'view', 'subpath', 'placeholder', 'traversal', 'segment']
@@ -492,7 +508,8 @@ SUB_ELEMS = ['..', '.', '', 'a/b', '../sentinel.txt', 'sub/x.css', '/etc/passwd'
 def gen_case(rng):
     mount = rng.choice(['route', 'route', 'route', 'catchall', 'catchall', 'view', 'view', 'subpath', 'subpath',
                         'placeholder', 'placeholder', 'traversal', 'traversal', 'segment'])
-    root = rng.choice(['fs'] * 6 + ['pkg'] * 6 + [k for k in ROOTS if k not in ('fs-missing', 'fs-file')] * 2 + list(ROOTS))
+    keys = [k for k in ROOTS if k not in INCLUDER]              # the included roots have a stream of their own
+    root = rng.choice(['fs'] * 6 + ['pkg'] * 6 + [k for k in keys if k not in ('fs-missing', 'fs-file')] * 2 + keys)
     case = {'mount': mount, 'root': root, 'path': _gen_path(rng, mount), 'subpath': [], 'qs': rng.choice(['', '', '', 'a=1', 'x=%2f&y']),
             'ae': rng.choice(AE_VALUES) if rng.random() < 0.6 else None,
             'encs': rng.choice(ENC_SETS) if rng.random() < 0.6 else [],
@@ -545,7 +562,8 @@ TWIN = {'pkg': ['pkgb', 'pkgb-rel', 'pkg', 'pkg-sub'], 'pkg-slash': ['pkgb', 'pk
         'fs': ['fs', 'fs-slash', 'fs-dots', 'fs-sub', 'pkg'], 'fs-slash': ['fs'], 'fs-dots': ['fs'], 'fs-up': ['fs'],
         'fs-sub': ['fs'], 'fs-missing': ['fs'], 'fs-file': ['fs'],
         'pkg-caller': ['pkgb-caller', 'pkg', 'pkg-caller-scripts'], 'pkgb-caller': ['pkg-caller', 'pkgb'],
-        'pkg-caller-sub': ['pkg-caller'], 'pkg-caller-scripts': ['pkg-caller', 'pkgb-caller']}
+        'pkg-caller-sub': ['pkg-caller'], 'pkg-caller-scripts': ['pkg-caller', 'pkgb-caller'],
+        'pkgb-included': ['pkga-included', 'pkg'], 'pkga-included': ['pkgb-included', 'pkgb']}
 SHARED_NAMES = ['file.txt', 'index.html', 'big.css', 'same.js', 'sub/x.css', 'sub/', '', 'only_b.txt', 'only.txt',
                 'sub/index.html', 'noindex/only.txt']
 
@@ -651,6 +669,32 @@ def respelled_histories(rng=None, limit=None, primary_only=False):
     return out
 
 
+def included_cases():
+    """Relative static paths registered by included code of ANOTHER package than the application's (every mounting; for
+    the direct mountings the view is created by that package's module)."""
+    out = []
+    base = {'subpath': [], 'qs': '', 'ae': None, 'encs': [], 'index': 'index.html', 'reload': False, 'pre': []}
+    rels = ['', 'index.html', 'file.txt', 'big.css', 'only_b.txt', 'only.txt', 'sub/', 'sub/x.css', 'same.js', 'noindex/only.txt',
+            'sub', '../sentinel.txt']
+    for root in INCLUDER:
+        for mount in MOUNTS:
+            for rel in rels:
+                if mount == 'segment' and '/' in rel.rstrip('/'):
+                    continue
+                d = dict(base)
+                if mount == 'subpath':
+                    d.update(mount=mount, root=root, path='/d/' if rel.endswith('/') or not rel else '/d',
+                             subpath=[x for x in rel.split('/') if x])
+                else:
+                    d.update(mount=mount, root=root, path=MOUNT_PREFIX[mount] + rel)
+                out.append(d)
+        for rel in ('file.txt', 'same.js'):
+            d = dict(base)
+            d.update(mount='route', root=root, path='/static/' + rel, encs=['gzip'], ae='gzip')
+            out.append(d)
+    return out
+
+
 def core_cases():
     out = []
     import itertools
@@ -705,6 +749,8 @@ def generate(rng, tier, n):
     # appended AFTER the random stream (which it therefore does not perturb): histories of one instance over spellings
     # of one normalised path
     for c in respelled_histories(rng, max(40, n // 25)):
+        yield c
+    for c in included_cases():
         yield c
 
 
@@ -933,7 +979,15 @@ def _get_app(case):
         import importlib
         factory = importlib.import_module(CALLER[case['root']] + '.factory')
         make_view, Configurator = factory.make_view, factory.make_config
-    if case['mount'] == 'route':
+    if case['mount'] == 'route' and case['root'] in INCLUDER:
+        # the application (top-level Configurator) is created by one package, the static view is registered by the
+        # includeme of another: inside include() the current package is the includeme's
+        import importlib
+        top = importlib.import_module(INCLUDER[case['root']] + '.factory')
+        config = top.make_config(settings={'pyramid.reload_assets': case['reload']})
+        config.include(factory.make_includeme('static', spec, content_encodings=list(case['encs'])))
+        app = ('wsgi', config.make_wsgi_app())
+    elif case['mount'] == 'route':
         ckw = {'package': kw['package_name']} if kw.get('package_name') else {}
         config = Configurator(settings={'pyramid.reload_assets': case['reload']}, **ckw)
         config.add_static_view(name='static', path=spec, content_encodings=list(case['encs']))
@@ -1318,6 +1372,7 @@ def targeted(broken, disagreements, rng):
             d.update(mount=mount, path=pre + tail)
             out.append(d)
     out += respelled_histories(primary_only=True)
+    out += included_cases()
     # non-ASCII names (and names that are the UTF-8-read-as-latin-1 form of another name) in every mounting and root kind:
     # a second decoding anywhere between the server and the view serves the wrong file or raises
     for mount in MOUNTS:
